@@ -30,6 +30,31 @@ def word_of(tr, body, op, loc, params=False):
     return None, n
 
 
+def words_of(tr, body, op, loc):
+    """set of (adt, field) words a receiver may designate; parameters of workspace-local helpers are bound at
+    their call sites, so a helper shared by several owners designates several words"""
+    w, n = word_of(tr, body, op, loc)
+    if w is not None:
+        return {w}
+    out = set()
+    n2 = tr.expand(tr.operand(body, op, loc), upvars=True, params=True)
+    for lf in leaves(n2):
+        lf = peel(lf)
+        guard = 0
+        while lf[0] == "call" and guard < 4:
+            c = tr.call_of(lf)
+            if c.def_ in ("core::ops::deref::Deref::deref", "core::convert::AsRef::as_ref", "core::borrow::Borrow::borrow"):
+                lf = peel(tr.expand(tr.operand(c.g.b, c.args[0], c.loc), upvars=True, params=True))
+                guard += 1
+            else:
+                break
+        for x in leaves(lf):
+            x = peel(x)
+            if x[0] == "field":
+                out.add((x[3], x[2]))
+    return out
+
+
 def atomic_fields(facts, adt_def):
     out = []
     adt = facts.adt(adt_def)
@@ -52,8 +77,7 @@ def sites(facts, tr, word):
             m = atomic_method(c)
             if m is None or m == "new" or not c.args:
                 continue
-            w, _n = word_of(tr, b, c.args[0], c.loc)
-            if w == word:
+            if word in words_of(tr, b, c.args[0], c.loc):
                 out.append((b, c, m))
     return out
 
@@ -65,8 +89,7 @@ def loads_in(tr, node, word):
         if x[0] == "call":
             c = tr.call_of(x)
             if atomic_method(c) == "load":
-                w, _ = word_of(tr, c.g.b, c.args[0], c.loc)
-                if w == word:
+                if word in words_of(tr, c.g.b, c.args[0], c.loc):
                     out.append(x)
     return out
 
@@ -127,6 +150,5 @@ def _is_cas_err(tr, node, word):
     if node[0] == "call":
         c = tr.call_of(node)
         if atomic_method(c) in CAS:
-            w, _ = word_of(tr, c.g.b, c.args[0], c.loc)
-            return w == word
+            return word in words_of(tr, c.g.b, c.args[0], c.loc)
     return False
